@@ -34,7 +34,7 @@ for m in ms:
         for t in tests:
             ok = False
             for attempt in range(2 if t == './server/' else 1):
-                rc, o = run('go test -vet=off -count=1 -timeout 20m %s' % t)
+                rc, o = run('go test -vet=off -count=1 -timeout %s %s' % ('20m' if t == './server/' else '4m', t))
                 if rc == 0:
                     ok = True; break
             if not ok:
